@@ -292,7 +292,15 @@ func (c *compiler) compileType(y *Type, parent Leafable, isUnion bool) error {
 		if resolvedMeta == nil {
 			return fmt.Errorf("%s - %s path cannot be resolved", SchemaPath(parent), y.ident)
 		} else {
-			y.delegate = resolvedMeta.(HasType).Type()
+			target, hasType := resolvedMeta.(Leafable)
+			if !hasType {
+				return fmt.Errorf("%s - %s path does not lead to a leaf", SchemaPath(parent), y.ident)
+			}
+			// target may not be compiled yet, or ever when it is in an imported module
+			if err := c.compileType(target.Type(), target, false); err != nil {
+				return err
+			}
+			y.delegate = target.Type()
 		}
 	} else {
 		y.delegate = y
